@@ -252,6 +252,24 @@ def _decoder(ctx: Ctx) -> dict[str, Any] | None:
     ctx.ob("D15.1", fi, day_loop, ok_days,
            "days are scanned in ascending order from 0 to the last day",
            construct="ascending day scan")
+    # every game of the permutation gets its scan: nothing in the game loop
+    # jumps over the day loop
+    inside_days = {id(x) for x in ast.walk(day_loop)}
+    jumps = [x for x in ast.walk(game_loop) if isinstance(
+        x, (ast.Continue, ast.Break, ast.Return))
+        and id(x) not in inside_days]
+    jguard = ""
+    if jumps:
+        par = next((i_ for i_ in ast.walk(game_loop) if isinstance(
+            i_, ast.If) and any(j_ is jumps[0] for j_ in i_.body)), None)
+        jguard = f" under `{ast.unparse(par.test)[:60]}`" if par else ""
+    ctx.ob("D15.1", fi, jumps[0] if jumps else game_loop, not jumps,
+           "every game of the permutation reaches the scan over the days"
+           if not jumps else
+           f"a game is skipped{jguard} (`{type(jumps[0]).__name__.lower()}` "
+           "outside the scan over the days): it is neither placed on the "
+           "earliest day on which both teams are free nor proven to have "
+           "none", construct="every game is scanned")
     gw2 = GuardWalk(ev)
     gw2.walk(denv.copy(), day_loop.body, loops=(day_loop,))
     brks = [e for e in gw2.exits if e.kind == "break"]
